@@ -67,7 +67,7 @@ static int inj_at_entry, nmsg_at_entry;
 static void inj_relax(void) {
     if (!(inj_at_entry && !shim_inject_write_eagain)) return;
     mon_flush();
-    for (int i = 0; i < NM; i++) for (int k = 0; k < MD[i].nmb; k++) if (MD[i].mb[k].msg >= nmsg_at_entry && !MD[i].mb[k].optional && MD[i].mb[k].kind == 0) { MD[i].mb[k].optional = 1; MSG[MD[i].mb[k].msg].owed--; }
+    for (int g = nmsg_at_entry; g < nmsg; g++) if (MSG[g].used) MSG[g].may_vanish = 1;
     inj_at_entry = 0;
 }
 static void discard_pending(int i) {   /* the pending messages of module i are about to be discarded by the library */
@@ -157,7 +157,7 @@ static void do_api(op_t op) {
                 if (m->st == S_RUNNING) {
                     int held = m->batch_size > 0 || m->batch_tmo > 0 || m->ever_batched;
                     for (int k = 0; k < NPAT; k++) if (m->sub[k].present && m->sub[k].prio == PR_LOW) held = 1;
-                    if (!held && ON(R_PS)) for (int k = 0; k < m->nmb; k++) if (!m->mb[k].optional && m->mb[k].kind == 0 && m->mb[k].msg < nmsg_stop_entry)   /* sent before this call */
+                    if (!held && ON(R_PS)) for (int k = 0; k < m->nmb; k++) if (!m->mb[k].optional && m->mb[k].kind == 0 && m->mb[k].msg < nmsg_stop_entry && !owed_excused(m->mb[k].msg))   /* sent before this call */
                         vfail("PS.owed", MSG[m->mb[k].msg].sys ? "PS.owed|sys" : "PS.owed", "the loop stopped but message #%d (topic %s) owed to RUNNING module %s was never handed over", m->mb[k].msg,
                               MSG[m->mb[k].msg].topic < NTOPIC ? TOPIC[MSG[m->mb[k].msg].topic] : "-", m->name);
                     for (int k = m->nmb - 1; k >= 0; k--) if (m->mb[k].optional) mb_remove(i, k);
@@ -276,10 +276,11 @@ static void do_api(op_t op) {
             REFUSED(rc, what, sg); break; }
         last_send_rc = rc;
         if (tb_account(s, rc, &sn, what)) { if (msg >= 0) { MSG[msg].used = 0; if (MSG[msg].autofree) lg_free((void *)MSG[msg].payload); } break; }
-        if (rc) vfail("PS.accept", "PS.accept", "%s returned %d", what, rc);
+        int send_rc_neg = 0;
+        if (rc && inj_armed && !shim_inject_write_eagain) send_rc_neg = 1;      /* reporting a full mailbox to the sender is acceptable */
+        else if (rc) vfail("PS.accept", "PS.accept", "%s returned %d", what, rc);
         int n = mon_send(msg, to, -1);
-        if (inj_armed && !shim_inject_write_eagain)      /* a write was refused (mailbox full): that copy may vanish, but must still be accounted for */
-            for (int i = 0; i < NM; i++) for (int k = 0; k < MD[i].nmb; k++) if (MD[i].mb[k].msg == msg && !MD[i].mb[k].optional) { MD[i].mb[k].optional = 1; MSG[msg].owed--; }
+        if (inj_armed && !shim_inject_write_eagain) { MSG[msg].may_vanish = 1; if (send_rc_neg) MSG[msg].rc_neg = 1; }   /* a pipe write was refused (mailbox full): one copy may vanish */
         obs(3000 + n);
         if (af && n == 0 && ON(R_FREE) && lg_is_live((void *)payload))
             vfail("PS.free", "PS.free|no-recipient", "%s with the auto-free flag had no eligible recipient but the payload was not released", what);
@@ -390,7 +391,7 @@ static void do_api(op_t op) {
     case O_ARM: MD[s].armed[op.b >> 5].act = op.b & 31; MD[s].armed[op.b >> 5].arg = op.d; break;
     case O_READY: { char c = 'x'; if (__real_write(UFD[op.a].wr, &c, 1) == 1) UFD[op.a].bytes++; break; }
     case O_ADVANCE: if (adv_drains && api_depth == 1) { api_depth--; drain(); api_depth++; } shim_advance(ADV[op.a]); mt_advance(); break;
-    case O_INJECT: if (op.a == INJ_WRITE_EAGAIN) shim_inject_write_eagain = 1; else shim_inject_epoll_errno = op.a == INJ_EPOLL_EINTR ? EINTR : EBADF; break;
+    case O_INJECT: if (op.a == INJ_WRITE_EAGAIN) shim_inject_write_eagain = 1 + op.b; else shim_inject_epoll_errno = op.a == INJ_EPOLL_EINTR ? EINTR : EBADF; break;
     case O_RELEASE: { int r = retained[op.a]; for (int i = op.a; i < nret - 1; i++) retained[i] = retained[i + 1]; nret--; EV[r].refs--; m_mem_unref((void *)EV[r].p); break; }
     default: vfail("INTERNAL", "INTERNAL", "unknown op %d", op.c);
     }
